@@ -2,6 +2,8 @@ package transpiler
 
 import (
 	"fmt"
+	"regexp"
+
 	"github.com/metrico/qryn/reader/logql/logql_transpiler_v2/clickhouse_planner"
 	"github.com/metrico/qryn/reader/logql/logql_transpiler_v2/shared"
 	"github.com/metrico/qryn/reader/prof/parser"
@@ -28,11 +30,13 @@ func (s *StreamSelectorPlanner) Process(ctx *shared.PlannerContext) (sql.ISelect
 		res = res.AndWhere(sql.And(matchers.globalMatchers...))
 	}
 	if len(matchers.kvMatchers) > 0 {
-		res = res.
-			AndWhere(sql.Or(matchers.kvMatchers...)).
-			AndHaving(sql.Eq(
-				clickhouse_planner.NewSqlBitSetAnd(matchers.kvMatchers),
-				sql.NewIntVal((1<<len(matchers.kvMatchers))-1)))
+		if matchers.kvRequired != 0 {
+			// a series without a row for a required selector is not selected: only rows that decide a bit are read
+			res = res.AndWhere(sql.Or(matchers.kvMatchers...))
+		}
+		res = res.AndHaving(sql.Eq(
+			clickhouse_planner.NewSqlBitSetAnd(matchers.kvMatchers),
+			sql.NewIntVal(matchers.kvRequired)))
 	}
 	return res, nil
 }
@@ -40,11 +44,45 @@ func (s *StreamSelectorPlanner) Process(ctx *shared.PlannerContext) (sql.ISelect
 type matchersResponse struct {
 	globalMatchers []sql.SQLCondition
 	kvMatchers     []sql.SQLCondition
+	// bit i set: the series needs an index row satisfying kvMatchers[i]; bit i clear: kvMatchers[i] is the
+	// inverse of a selector that accepts the empty value, no row of the series may satisfy it
+	kvRequired int64
+}
+
+// inverseOp returns the operator that holds exactly when op does not
+func inverseOp(op string) string {
+	switch op {
+	case "=":
+		return "!="
+	case "!=":
+		return "="
+	case "=~":
+		return "!~"
+	}
+	return "=~"
+}
+
+// acceptsEmpty says whether a label without value (a label the series does not have) satisfies the selector
+func acceptsEmpty(op string, val string) (bool, error) {
+	switch op {
+	case "=":
+		return val == "", nil
+	case "!=":
+		return val != "", nil
+	case "=~", "!~":
+		re, err := regexp.Compile(val)
+		if err != nil {
+			return false, err
+		}
+		return re.MatchString("") == (op == "=~"), nil
+	}
+	return false, fmt.Errorf("unknown operator: %s", op)
 }
 
 func (s *StreamSelectorPlanner) getMatchers() (*matchersResponse, error) {
 	var globalClauses []sql.SQLCondition
 	var kvClauses []sql.SQLCondition
+	var kvRequired int64
 	for _, selector := range s.Selectors {
 		_str, err := selector.Val.Unquote()
 		if err != nil {
@@ -112,7 +150,20 @@ func (s *StreamSelectorPlanner) getMatchers() (*matchersResponse, error) {
 			globalClauses = append(globalClauses, clause)
 			continue
 		}
-		clause, err = s.getMatcherClause(sql.NewRawObject("val"), selector.Op, sql.NewStringVal(_str))
+		op := selector.Op
+		optional, err := acceptsEmpty(op, _str)
+		if err != nil {
+			return nil, err
+		}
+		if optional {
+			// The index has no row for a label the series lacks, and a missing label reads as the empty value:
+			// the selector holds unless a row of its label violates it. The index is asked for the inverse
+			// selector and the bit of that clause has to stay clear.
+			op = inverseOp(op)
+		} else {
+			kvRequired |= 1 << len(kvClauses)
+		}
+		clause, err = s.getMatcherClause(sql.NewRawObject("val"), op, sql.NewStringVal(_str))
 		if err != nil {
 			return nil, err
 		}
@@ -122,6 +173,7 @@ func (s *StreamSelectorPlanner) getMatchers() (*matchersResponse, error) {
 	return &matchersResponse{
 		globalMatchers: globalClauses,
 		kvMatchers:     kvClauses,
+		kvRequired:     kvRequired,
 	}, nil
 }
 
